@@ -1,0 +1,43 @@
+//go:build verif
+
+package boxes
+
+import (
+	"github.com/benoitkugler/webrender/css/counters"
+	"github.com/benoitkugler/webrender/html/tree"
+	"github.com/benoitkugler/webrender/utils"
+)
+
+// Read-only hooks for the verification harness (property C09). Add-only file, compiled only
+// with the build tag "verif".
+
+// VerifC09RawTree returns the box tree exactly as BuildFormattingStructure hands it to
+// CreateAnonymousBox (the output of elementToBox, root flagged), without running the
+// anonymous-box passes.
+func VerifC09RawTree(elementTree *utils.HTMLNode, styleFor *tree.StyleFor, resolver URLResolver,
+	baseUrl string, targetCollector *tree.TargetCollector, cs counters.CounterStyle, footnotes *[]Box,
+) Box {
+	boxList := elementToBox(elementTree, styleFor, resolver, baseUrl, targetCollector, cs, nil, footnotes)
+	var box Box
+	if len(boxList) > 0 {
+		box = boxList[0]
+	} else { //  No root element
+		rsf := rootStyleFor{elementTree: elementTree, StyleFor: *styleFor}
+		box = elementToBox(elementTree, rsf, resolver, baseUrl, targetCollector, cs, nil, footnotes)[0]
+	}
+	targetCollector.CheckPendingTargets()
+	box.Box().IsForRootElement = true
+	return box
+}
+
+// VerifC09TableFlags exposes the three unexported table-model flags of a box.
+func VerifC09TableFlags(box Box) (properTableChild, internalTableOrCaption, tabularContainer bool) {
+	f := box.Box()
+	return f.properTableChild, f.internalTableOrCaption, f.tabularContainer
+}
+
+// VerifC09IntegerAttribute exposes integerAttribute.
+func VerifC09IntegerAttribute(attr string, minimum int) int { return integerAttribute(attr, minimum) }
+
+// VerifC09IsWhitespace exposes isWhitespace with the default predicate.
+func VerifC09IsWhitespace(box Box) bool { return isWhitespace(box, nil) }
